@@ -1,4 +1,4 @@
-import CprocVerif.Lemmas.PPPre1
+import CprocVerif.Lemmas.PPStr1
 
 /-! # Arguments with macro names, part 2: `rawnext` and `expand` (no invocation) on a `GoodP` state -/
 
@@ -105,7 +105,7 @@ theorem respace_hide {l : List Tok} {sp : Bool} (h : ∀ t ∈ l, t.hide = false
 
 /-- **`expand` on a token that starts no invocation**, against one step of the reference, for an
 arbitrary continuation `X` of the source -/
-theorem expand_simP (ms0 : List Macro) (hT : TblOK ms0) (n : Nat) (s1 s2 : St) (t : Tok) (X : List Item)
+theorem expand_simP (ms0 : List Macro) (hT : TblOKS ms0) (n : Nat) (s1 s2 : St) (t : Tok) (X : List Item)
     (g : GoodP ms0 s1) (ht : FlatP ms0 t) (h : exec n (.expand t) s1 = .ok s2) :
     GoodP ms0 s2 ∧ s2.raw = s1.raw ∧
     ((s2.rb = true ∧ s2.depth = s1.depth + 1 ∧ flat s2.macros s2.ctx ≠ [] ∧
